@@ -664,6 +664,8 @@ def s_mul(a, b):
 
 
 def s_div(a, b):
+    if isinstance(a, Choice) or isinstance(b, Choice):
+        return _lift_choice(s_div, a, b)
     if isinstance(a, (bool, int)) and isinstance(b, (bool, int)) and not isinstance(a, Unk):
         if b == 0:
             return Unk('x/0')
